@@ -24,8 +24,10 @@ TRUSTED = [
     "Lean 4.33 kernel; Mathlib lemmas; axioms ⊆ {propext, Classical.choice, Quot.sound}",
     "hand-written model FV/Model/Yaml.lean + FV/Model/Netlist.lean — fidelity to frame/netlist/*.py checked by this "
     "correspondence run (object, writer tree, re-read object), not proved",
-    "create_stog is a parameter of the model; theorems assume it is a role-assigning permutation that is stable on its "
-    "own output (hypotheses StogPerm / StogStable, tested on every sample through the re-read roles)",
+    "create_stog: the model's STOG step is a parameter; the headline theorems (…_createStog) and the driver use stogC06 = "
+    "the C06 model FV/Model/Stog.lean run on the tagged rectangles, for which StogPerm / StogStable are proved "
+    "(FV/Proofs/StogInst.lean); fidelity of that model to geometry.py::create_stog is C06's correspondence plus this run "
+    "(roles and order of loaded and re-read rectangles are compared)",
     "YAML text layer (ruamel.yaml dump/load) is outside the theorem: pinned by load(dump(tree)) == tree on every sample",
     "theorems are over exact ordered fields; IEEE rounding is executed (F stream), never proved",
     "harness (Python) and compiled Lean driver: encoding of trees, canonicalisation, comparison",
@@ -238,9 +240,8 @@ def run(ctx: Ctx) -> None:
                 "/ bool; 'Q' stream dyadic (exact, explicit tolerance), 'F' stream decimal / thirds / doubles (tolerance "
                 "undefined or explicit); non-trivial = accepted and at least one module; distinct = distinct documents")
     ctx.assumptions = [
-        "create_stog is a parameter of the model: the round-trip theorems assume StogPerm (it permutes a module's rectangles, "
-        "changing only roles) and StogStable (run on its own output it returns that output); both are exercised on every "
-        "sample (roles and order of the re-read rectangles are compared)",
+        "no assumption about create_stog is left in the headline theorems: StogPerm and StogStable are proved for the C06 "
+        "model (stogC06), which is also what the driver executes",
         "the YAML text layer (ruamel dump / safe load) is not modelled: load(dump(tree)) == tree is tested on every sample",
         "exact-field arithmetic in the theorems; on the float stream centres / hard areas recomputed in a different order "
         "are compared with 1e-9 relative tolerance",
